@@ -167,6 +167,7 @@ type World struct {
 	PCMode       int
 	payloadSeq   int
 	emptyUsed    bool
+	Big          bool
 	bursts       int
 	fans         int
 	sharedNode   *ipfslog.LogOptions
@@ -318,6 +319,7 @@ func NewWorld(r *Run, p *Profile) *World {
 	w.setupCodec()
 	dupLinksCanonicalised = w.LinkKeyBytes != nil
 	w.ShareOpts = r.Choose("share-load-options", 2) == 0
+	w.Big = r.Choose("big-world", 2) == 0 // bursts and wide forks (long and wide logs cost time at every later step)
 	w.LogConc = []uint{0, 0, 0, 1, 2, 5, math.MaxUint, 1 << 63}[r.Choose("log-concurrency", 8)]
 	if w.Codec == "pb" {
 		w.F.crash = false // the legacy codec cannot read back what it writes for v2 entries: in-memory exchange only
@@ -555,7 +557,7 @@ func (w *World) doBurst() {
 	n := w.pickUp("burst-node")
 	k := 17 + w.R.Choose("burst-len", 40)
 	pc := w.pointerCount()
-	if n == nil || w.bursts >= 2 {
+	if n == nil || w.bursts >= 2 || !w.Big {
 		return
 	}
 	w.bursts++
@@ -585,7 +587,7 @@ func (w *World) doFan() {
 	n := w.pickUp("fan-node")
 	k := 9 + w.R.Choose("fan-width", 16)
 	pc := w.pointerCount()
-	if n == nil || w.fans >= 1 || w.Codec == "pb" {
+	if n == nil || w.fans >= 1 || w.Codec == "pb" || !w.Big {
 		return
 	}
 	w.fans++
